@@ -25,8 +25,8 @@ def fname(stem, ext):
     return os.path.join(scratch(), 'p%d-%s%s' % (os.getpid(), stem, ext))
 
 
-DELIMS = [' ', ',', '\t', ';']
-ENCODINGS = ['utf-8', 'latin-1', 'ascii']
+DELIMS = [' ', ',', '\t', ';', '%']       # '%' : a delimiter that is also a printf directive
+ENCODINGS = ['utf-8', 'latin-1', 'ascii', 'utf-8-sig']    # utf-8-sig: the writer encodes line by line, so every line carries a BOM
 TARGETS = ['plain', 'gz', 'gzip', 'bz2', 'fileobj']
 EXT = {'plain': '.txt', 'gz': '.gz', 'gzip': '.gzip', 'bz2': '.bz2', 'fileobj': '.bin'}
 
